@@ -232,10 +232,12 @@ theorem defaultErrorHandler_serves (a : AppId) (debug : Bool) (src : ErrSrc) (k 
     refine serves_ite ?_ ?_
     · apply errField_serves; intro _
       apply errField_serves; intro _
+      refine Prog.Serves.step _ _ trivial fun _ => ?_
       apply errField_serves; intro _
       apply errField_serves; intro _
       exact hk _
-    · apply errField_serves; intro _
+    · refine Prog.Serves.step _ _ trivial fun _ => ?_
+      apply errField_serves; intro _
       apply errField_serves; intro _
       exact hk _
 
@@ -363,6 +365,19 @@ theorem hop_serves (nest : Req → Prog → Prog) (a : AppId) (cs : List Nat) (o
       exact environGet_serves a .request rfl _ _ fun _ => hret _
     · intro _
       exact Prog.Serves.step _ _ trivial fun _ => obsRead_serves a _ _ (hk _)
+  | kwargs => simp only [hop]; exact Prog.Serves.step _ _ trivial fun _ => obsRead_serves a _ _ (hk _)
+  | urlArgs =>
+    simp only [hop]
+    apply cacheIn_serves a .request rfl
+    · intro ret hret; exact hret _
+    · intro _; exact obsRead_serves a _ _ (hk _)
+  | scookie c =>
+    simp only [hop]
+    apply cacheIn_serves a .request rfl
+    · intro ret hret
+      exact envGet_serves a .request rfl _ _ fun _ => hret _
+    · intro _
+      exact Prog.Serves.step _ _ trivial fun _ => obsRead_serves a _ _ (hk _)
   | url => simp only [hop]; exact reqUrl_serves a .request rfl _ _ fun _ => obsRead_serves a _ _ (hk _)
   | status code line => simp only [hop]; exact setStatus_serves a _ _ _ (hk _)
   | rdStatus => simp only [hop]; exact Prog.Serves.step _ _ resp_attrs.1 fun _ => obsRead_serves a _ _ (hk _)
@@ -472,9 +487,23 @@ theorem failMultipartProg_serves (a : AppId) (k : Prog) (hk : k.Serves a) :
   refine Prog.Serves.step _ _ trivial fun _ => ?_
   exact reqBodyObj_serves a .request rfl _ _ fun _ => hk
 
-theorem outcome_serves (a : AppId) (o : Outcome) (k : Out → Prog) (hk : ∀ x, (k x).Serves a) :
+theorem redirectProg_serves (loc line : String) (k : Out → Prog) (hk : ∀ x, (k x).Serves defaultApp) :
+    (redirectProg loc line k).Serves defaultApp := by
+  unfold redirectProg
+  apply envGet_serves defaultApp .request rfl; intro _
+  refine Prog.Serves.step _ _ resp_attrs.1 fun _ => ?_
+  refine Prog.Serves.step _ _ trivial fun _ => ?_
+  refine Prog.Serves.step _ _ trivial fun _ => ?_
+  refine Prog.Serves.step _ _ resp_attrs.2.2.2.1 fun _ => ?_
+  exact reqUrl_serves defaultApp .request rfl _ _ fun _ => hk _
+
+theorem outcome_serves (a : AppId) (o : Outcome) (ho : o.LocalTo a) (k : Out → Prog) (hk : ∀ x, (k x).Serves a) :
     (outcome a o k).Serves a := by
   cases o with
+  | redirect loc line =>
+    simp only [Outcome.LocalTo] at ho
+    subst ho
+    simp only [outcome]; exact redirectProg_serves loc line k hk
   | failJson e => simp only [outcome]; exact failJsonProg_serves a _ (hk _)
   | failForm e => simp only [outcome]; exact failFormProg_serves a _ (hk _)
   | failMultipart e => simp only [outcome]; exact failMultipartProg_serves a _ (hk _)
@@ -539,7 +568,8 @@ theorem serve_serves (fuel : Nat) (a : AppId) (r : Req) (hl : r.LocalTo a) (k : 
         refine Prog.Serves.step _ _ trivial fun _ => ?_
         refine Prog.Serves.step _ _ trivial fun _ => ?_
         refine Prog.Serves.step _ _ trivial fun _ => ?_
+        refine Prog.Serves.step _ _ trivial fun _ => ?_
         simp only [Req.LocalTo] at hl
-        exact hops_serves _ b ops hl.2.2.2 [] _ (outcome_serves b out _ hleave)
+        exact hops_serves _ b ops hl.2.2.2.1 [] _ (outcome_serves b out hl.2.2.2.2 _ hleave)
 
 end Ombott.WsgiConc
